@@ -170,6 +170,9 @@ func (f *Fn) prov(e ast.Expr, depth int, busy map[*types.Var]bool) string {
 			}
 		}
 		if k := f.CallKey(x); k != "" {
+			if provTransparent[k] && len(x.Args) == 1 {
+				return f.prov(x.Args[0], depth, busy)
+			}
 			return "call:" + k + "()"
 		}
 		return "call:?()"
@@ -424,4 +427,10 @@ func (f *Fn) shortCircuitNonNil(use ast.Node, want string) bool {
 		return true
 	})
 	return found
+}
+
+// provTransparent lists value-preserving helpers Prov looks through.
+var provTransparent = map[string]bool{
+	"kv/sqlite3.bindUint64AsInt64": true,
+	"kv/sqlite3.scanInt64AsUint64": true,
 }
